@@ -248,6 +248,7 @@ Definition spec_ok (c : case) : bool :=
   else if c_prop c =? 13 then c13_pairs h && c13_encodes h
   else if c_prop c =? 15 then scan c15_ok tr0 h
   else if c_prop c =? 16 then c16_scan (4 * length (c_ids c) + 2) tr0 h []
+                              && forallb (fun p => match snd p with RBadFingerprint => false | _ => true end) h
   else if c_prop c =? 17 then scan c17_ok tr0 h
   else if c_prop c =? 18 then c18_scan (N.to_nat (nth 0 (c_ids c) 0)) h []
   else true.
